@@ -22,3 +22,19 @@ def install(w):
             props=["C15"],
         )
     )
+
+    import snowflake.connector.errors as sferr
+
+    w.add_contract(
+        Contract(
+            M + "inline_variables",
+            params={"self": Vr, "sql": str},
+            requires=[],
+            result=str,
+            modifies=[],
+            raises={sferr.ProgrammingError: {"when": None, "ensures": {"C15.undefined.message": "isinstance(exc.msg, str)"}, "modifies": []}},
+            ensures={"C15.inline.total": "isinstance(result, str)"},
+            log=("inline_variables", ["self", "sql"]),
+            props=["C15", "C07", "C08"],
+        )
+    )
